@@ -305,7 +305,7 @@ class C18(Check):
             sub = blk[1]
             for flag in (0, 1):
                 yield ("idle", sub, flag)
-            for flag in (0, 1):
+            for flag in (0, 1, 2, 3):  # bit 0: idle gates in the input; bit 1: every input definition was called once before
                 for suffix in SUFFIXES:
                     yield ("stretch", sub, flag, suffix)
 
@@ -511,8 +511,17 @@ class C18(Check):
         table_in = {}
         for name in sub:
             table_in[name] = base[name]
-        if flag:
+        if flag & 1:
             table_in = impl.add_idle_gates(table_in)
+        if flag & 2:
+            # the definitions have been in use (called with fitting arguments) before variants are derived from them
+            r = impl.Register("r0", NQ)
+            for name, d in table_in.items():
+                try:
+                    d(*good_args(kinds_of(d), r))
+                    d(**dict(zip(names_of(d), good_args(kinds_of(d), r))))
+                except Exception:  # noqa: BLE001 - judged by the call family
+                    pass
         return base, table_in
 
     # ---- family "idle" ---------------------------------------------------------------------
